@@ -26,7 +26,7 @@
 
     The slot-array growth in [tryGrow] is one step because it runs while the grower holds every
     flyweight lane, and every access to [Slots] happens inside a lane
-    ([FlyweightLemmas.fgrow_excludes_others] proves that the others are outside their lanes).
+    ([FlyweightLemmas.fgrow_exclusive] proves that the others are outside their lanes).
 
     Definitions only; the proofs are in FlyweightLemmas.v. *)
 From SV Require Export HashMapDefs.
